@@ -15,10 +15,32 @@ CLI_FILES = ["evo/main_ape.py", "evo/main_rpe.py", "evo/main_traj.py", "evo/main
              "evo/main_config.py", "evo/common_ape_rpe.py"]
 
 
+# decision helpers: functions (any module of evo/, evo/tools/) that take `confirm_overwrite` and reach
+# check_and_confirm_overwrite, e.g. a `_overwrite_permitted(path, confirm_overwrite)` extracted from the writers.
+# name -> isinstance types tested inside the helper (None = untyped).  Filled by generate() before guards_of is used.
+HELPERS = {}
+
+
+def _callee(n):
+    return getattr(n.func, "attr", None) or getattr(n.func, "id", None)
+
+
 def calls_check(node):
-    return any(isinstance(n, ast.Call) and (getattr(n.func, "attr", None) == "check_and_confirm_overwrite"
-                                            or getattr(n.func, "id", None) == "check_and_confirm_overwrite")
+    return any(isinstance(n, ast.Call) and (_callee(n) == "check_and_confirm_overwrite" or _callee(n) in HELPERS)
                for n in ast.walk(node))
+
+
+def helper_types(node):
+    """isinstance types of a decision helper called in `node` (None if there is no such call / the helper is untyped)"""
+    for n in ast.walk(node):
+        if isinstance(n, ast.Call) and _callee(n) in HELPERS and HELPERS[_callee(n)] is not None:
+            return HELPERS[_callee(n)]
+    return None
+
+
+def passes_flag(node):
+    """the flag reaches the decision: mentioned in the test itself or passed to a decision helper"""
+    return mentions_flag(node)
 
 
 def mentions_flag(node):
@@ -56,9 +78,15 @@ def guards_of(fn):
                 test_types = isinstance_types(st.test)
                 if calls_check(st.test):
                     if mentions_flag(st.test) and negated_check(st.test):
-                        kind = "typedOuter" if outer_types is not None else "plain"
-                        out.append({"kind": kind, "types": outer_types or [], "inLoop": in_loop,
-                                    "ret": body_returns(st.body), "line": st.lineno})
+                        ht = helper_types(st.test)
+                        if ht is not None and outer_types is None:
+                            # `if not helper(path, confirm_overwrite): return` with the isinstance test inside the helper
+                            out.append({"kind": "typedInner", "types": ht, "inLoop": in_loop,
+                                        "ret": body_returns(st.body), "line": st.lineno})
+                        else:
+                            kind = "typedOuter" if outer_types is not None else "plain"
+                            out.append({"kind": kind, "types": outer_types or [], "inLoop": in_loop,
+                                        "ret": body_returns(st.body), "line": st.lineno})
                     elif outer_flag and negated_check(st.test):
                         out.append({"kind": "typedInner", "types": outer_types or [], "inLoop": in_loop,
                                     "ret": body_returns(st.body), "line": st.lineno})
@@ -78,6 +106,43 @@ def guards_of(fn):
     return out
 
 
+def confirm_shape_semantic(fn):
+    """`user.confirm` written in another way than `if input(..) != key: return False / else: return True` (e.g.
+    `return input(..) == key`).  It is the same decision iff (i) its source compares the answer with `key` by exactly one
+    ==/!= and does nothing else to it (no other comparison, no `in`, no string method, no boolean operator), and (ii) the
+    function of the tree under test, evaluated on sample answers and keys, returns `answer == key` with exactly one
+    question asked.  Then the canonical shape is emitted; otherwise the shape stays unknown and the theorem fails."""
+    cmps = [c for c in ast.walk(fn) if isinstance(c, ast.Compare)]
+    plain = (len(cmps) == 1 and len(cmps[0].ops) == 1 and isinstance(cmps[0].ops[0], (ast.Eq, ast.NotEq))
+             and any(isinstance(x, ast.Name) and x.id == "key" for x in [cmps[0].left] + cmps[0].comparators)
+             and not any(isinstance(x, (ast.BoolOp,)) for x in ast.walk(fn))
+             and not any(isinstance(x, ast.Call) and isinstance(x.func, ast.Attribute)
+                         and x.func.attr not in ("format",) and not (isinstance(x.func.value, ast.Name) and x.func.value.id in ("logger", "logging"))
+                         for x in ast.walk(fn)))
+    if not plain:
+        return {}
+    import builtins
+    from evo.tools import user
+    real = builtins.input
+    ok = True
+    try:
+        for key in ("y", "ok"):
+            for ans in ("y", "n", "", "Y", "yes", " y", "y ", "\ty", "yy", "N", "ok", "OK", "0", "1"):
+                asked = []
+
+                def fake(prompt="", _a=ans, _asked=asked):
+                    _asked.append(prompt)
+                    return _a
+                builtins.input = fake
+                got = user.confirm("m", key)
+                ok = ok and (got is (ans == key)) and len(asked) == 1
+    except Exception:  # noqa: BLE001
+        ok = False
+    finally:
+        builtins.input = real
+    return {"op": "NotEq", "then": False, "else": True} if ok else {}
+
+
 def generate():
     repo = core.REPO
     files = sorted(list((repo / "evo").glob("*.py")) + list((repo / "evo" / "tools").glob("*.py")))
@@ -85,6 +150,33 @@ def generate():
     for f in files:
         rel = str(f.relative_to(repo))
         trees[rel] = ast.parse(f.read_text())
+    # decision helpers: a function with a confirm_overwrite parameter that returns the decision (every `return` has a value),
+    # reaches check_and_confirm_overwrite, and is only called from inside functions that have a confirm_overwrite parameter
+    HELPERS.clear()
+    fdefs = {}
+    for rel, tree in trees.items():
+        for n in ast.walk(tree):
+            if isinstance(n, ast.FunctionDef) and "confirm_overwrite" in [a_.arg for a_ in n.args.args]:
+                fdefs.setdefault(n.name, []).append(n)
+    enclosing = {}          # callee name -> set of enclosing function nodes (None = module level / other function)
+    for rel, tree in trees.items():
+        def walk(node, encl):
+            for c in ast.iter_child_nodes(node):
+                e = c if isinstance(c, (ast.FunctionDef, ast.AsyncFunctionDef)) else encl
+                if isinstance(c, ast.Call) and _callee(c) in fdefs:
+                    enclosing.setdefault(_callee(c), []).append(encl)
+                walk(c, e)
+        walk(tree, None)
+    for name, nodes in fdefs.items():
+        if len(nodes) != 1:
+            continue
+        fn = nodes[0]
+        rets = [r for r in ast.walk(fn) if isinstance(r, ast.Return)]
+        direct = any(isinstance(c, ast.Call) and _callee(c) == "check_and_confirm_overwrite" for c in ast.walk(fn))
+        only_from_writers = bool(enclosing.get(name)) and all(
+            e is not None and "confirm_overwrite" in [a_.arg for a_ in e.args.args] for e in enclosing[name])
+        if direct and rets and all(r.value is not None for r in rets) and only_from_writers:
+            HELPERS[name] = isinstance_types(fn)
     writers = []
     for rel, tree in trees.items():
         class V(ast.NodeVisitor):
@@ -98,7 +190,7 @@ def generate():
 
             def visit_FunctionDef(self, node):
                 names = [a.arg for a in node.args.args]
-                if "confirm_overwrite" in names:
+                if "confirm_overwrite" in names and node.name not in HELPERS:
                     i = names.index("confirm_overwrite")
                     d = node.args.defaults
                     off = len(names) - len(d)
@@ -192,6 +284,8 @@ def generate():
                              "else": bool(ast.literal_eval(st.orelse[0].value))}
             kd = n.args.defaults[-1] if n.args.defaults else None
             shape["key"] = ast.literal_eval(kd) if kd is not None else "?"
+            if shape["op"] == "?":
+                shape.update(confirm_shape_semantic(n))
     b = lambda x: "true" if x else "false"  # noqa
     L = ["-- GENERATED by harness/translate/writers.py from the AST of evo/*.py, evo/tools/*.py — do not edit",
          "import EvoModel.Model.Overwrite", "namespace Evo.Gen", "open Evo.Overwrite", "",
